@@ -171,6 +171,10 @@ func runSysPlug(x *X) {
 		metas[ex.id] = m
 		ex.method = []string{"GET", "POST", "PUT", "HEAD", "GET", "DELETE", "PATCH"}[c.Intn(7, "method")]
 		ex.target = fmt.Sprintf("/p/%d", i)
+		if c.Intn(3, "asset-path") == 0 {
+			// what a response is, is said by its headers, not by how the request path ends
+			ex.target = []string{"/assets/vendor.min.js", "/styles/site.css", "/data/export.json", "/img/logo.svg", "/docs/index.html", "/blobs/firmware.bin"}[c.Intn(6, "asset")] + fmt.Sprintf("?v=%d", i)
+		}
 		// any method may carry a body (unusual for GET/HEAD/DELETE, legal all the same): limits are per request, not per verb
 		if ex.method == "POST" || ex.method == "PUT" || ex.method == "PATCH" || c.Intn(4, "body-anyway") == 0 {
 			var n int
@@ -294,7 +298,9 @@ func runSysPlug(x *X) {
 			rs.interim = []int{103}
 			x.Probe("interim-response-through-plugins")
 		}
-		if len(ex.body) > 0 && (!wantSize || len(ex.body) <= L1) && c.Intn(5, "expect-continue") == 0 {
+		// (an upload that announces itself with Expect: 100-continue is bounded like any other: a
+		// chunked one has no declared length to be judged by, only the bytes themselves)
+		if len(ex.body) > 0 && (!wantSize || len(ex.body) <= L1 || ex.chunked) && c.Intn(5, "expect-continue") == 0 {
 			ex.expect = "accept"
 			ex.hdr = append(ex.hdr, hdrKV{"Expect", "100-continue"})
 			x.Probe("expect-continue-through-plugins")
